@@ -259,6 +259,220 @@ def oracle_writer(c, py, src, srcpy, F):
     return True
 
 
+# ------------------------------------------------------------------ rewrites around the 4 GiB thresholds (driver c17layout)
+class SparseFile(io.RawIOBase):
+    """read-only file object over (offset, bytes) segments; everything else reads as zero; nothing big is ever allocated"""
+
+    def __init__(self, size, segs):
+        super().__init__()
+        self.size = size
+        self.segs = sorted((o, bytes.fromhex(h)) for o, h in segs)
+        self.pos = 0
+
+    def seekable(self):
+        return True
+
+    def readable(self):
+        return True
+
+    def tell(self):
+        return self.pos
+
+    def seek(self, off, whence=0):
+        self.pos = off if whence == 0 else (self.pos + off if whence == 1 else self.size + off)
+        if self.pos < 0:
+            raise OSError("negative seek")
+        return self.pos
+
+    def read(self, n=-1):
+        if n is None or n < 0:
+            n = self.size - self.pos
+        n = max(0, min(n, self.size - self.pos))
+        if n > 1 << 27:
+            raise OSError("sparse read of %d bytes refused" % n)
+        buf = bytearray(n)
+        a, b = self.pos, self.pos + n
+        for o, d in self.segs:
+            if o >= b:
+                break
+            if o + len(d) <= a:
+                continue
+            x, y = max(o, a), min(o + len(d), b)
+            buf[x - a:y - a] = d[x - o:y - o]
+        self.pos = b
+        return bytes(buf)
+
+
+def py_layout_view(out):
+    """Python zipfile on a sparse archive: directory fields, plus the local header each entry points to"""
+    fp = SparseFile(out["size"], out["segs"])
+    try:
+        zf = zipfile.ZipFile(fp)
+    except Exception as e:
+        return {"err": "%s: %s" % (type(e).__name__, e), "members": []}
+    ms = []
+    for zi in zf.infolist():
+        enc = "utf-8" if zi.flag_bits & 0x800 else "cp437"
+        m = {"name": zi.orig_filename.encode(enc, "replace").hex(), "off": zi.header_offset, "csize": zi.compress_size, "usize": zi.file_size,
+             "crc": zi.CRC, "err": ""}
+        try:
+            fp.seek(zi.header_offset)
+            h = fp.read(30)
+            if len(h) != 30 or h[:4] != b"PK\x03\x04":
+                m["err"] = "no local file header at offset %d" % zi.header_offset
+            else:
+                n = int.from_bytes(h[26:28], "little")
+                if fp.read(n).hex() != m["name"]:
+                    m["err"] = "local header at offset %d belongs to another member" % zi.header_offset
+        except Exception as e:
+            m["err"] = "%s: %s" % (type(e).__name__, e)
+        ms.append(m)
+    return {"err": "", "members": ms, "start_dir": zf.start_dir}
+
+
+def zip64_records(wd_hex):
+    """per directory entry of an emitted directory: how many extra records carry header id 0x0001 (model-free byte walk)"""
+    b = bytes.fromhex(wd_hex)
+    out, p = [], 0
+    while p + 46 <= len(b) and b[p:p + 4] == b"PK\x01\x02":
+        n, e, k = (int.from_bytes(b[p + 28 + 2 * i:p + 30 + 2 * i], "little") for i in range(3))
+        x, q, cnt = b[p + 46 + n:p + 46 + n + e], 0, 0
+        while q + 4 <= len(x):
+            cnt += 1 if x[q:q + 2] == b"\x01\x00" else 0
+            q += 4 + int.from_bytes(x[q + 2:q + 4], "little")
+        out.append(cnt)
+        p += 46 + n + e + k
+    return out
+
+
+def oracle_layout(c, py, F):
+    """the archive relic wrote (pieces laid out physically by the harness + relic's directory) must be read by archive/zip,
+    zipfile and relic itself as exactly the intended members at the offsets where their bytes are"""
+    flow = c.get("flow", "free")
+    exp = c.get("expect") or []
+    if c.get("err") or c.get("panic") or "go" not in c:
+        F.add("C17:rewrite:%s:fails" % flow, "rewrite of valid archives fails: %s%s" % (c.get("err", ""), c.get("panic", "")), c)
+        return False
+    want = [(e["name"], e["off"], e["csize"], e["usize"], e["crc"]) for e in exp]
+    verdict = {}
+    g = c["go"]
+    if g["err"] or g.get("panic"):
+        verdict["archive/zip"] = "rejects the archive: %s" % (g["err"] or g.get("panic"))
+    else:
+        got = [(m["name"], (m["dataoff"] - e["lfhlen"]) if m["dataoff"] >= 0 else None, m["csize"], m["usize"], m["crc"]) for m, e in zip(g["members"], exp)]
+        if len(g["members"]) != len(exp) or got != want:
+            i = next((i for i, (a, b) in enumerate(zip(got, want)) if a != b), min(len(got), len(want)))
+            verdict["archive/zip"] = "member %d %r: %s" % (i, bytes.fromhex(want[i][0]).decode("latin1") if i < len(want) else "?",
+                                                          (g["members"][i]["err"] or "reads (offset,csize,usize,crc)=%s, member is at %s" % (got[i][1:], want[i][1:])) if i < len(got) and i < len(want) else "member count %d, expected %d" % (len(got), len(want)))
+    if py["err"]:
+        verdict["zipfile"] = "rejects the archive: %s" % py["err"]
+    else:
+        got = [(m["name"], m["off"], m["csize"], m["usize"], m["crc"]) for m in py["members"]]
+        bad = next((i for i, m in enumerate(py["members"]) if m["err"]), None)
+        if got != want:
+            i = next((i for i, (a, b) in enumerate(zip(got, want)) if a != b), min(len(got), len(want)))
+            verdict["zipfile"] = "member %d: reads (offset,csize,usize,crc)=%s, member is at %s" % (i, got[i][1:] if i < len(got) else None, want[i][1:] if i < len(want) else None)
+        elif bad is not None:
+            verdict["zipfile"] = "member %d: %s" % (bad, py["members"][bad]["err"])
+    r = c["relic"]
+    if r["err"] or r["panic"]:
+        verdict["zipslicer"] = "cannot read its own output: %s%s" % (r["err"], r["panic"])
+    else:
+        got = [(m["name"], m["off"], m["csize"], m["usize"], m["crc0"]) for m in r["members"]]
+        bad = next((i for i, m in enumerate(r["members"]) if m["total_err"] or m.get("panic")), None)
+        if got != want:
+            i = next((i for i, (a, b) in enumerate(zip(got, want)) if a != b), min(len(got), len(want)))
+            verdict["zipslicer"] = "member %d: reads (offset,csize,usize,crc)=%s, member is at %s" % (i, got[i][1:] if i < len(got) else None, want[i][1:] if i < len(want) else None)
+        elif bad is not None:
+            verdict["zipslicer"] = "member %d: %s" % (bad, r["members"][bad]["total_err"] or r["members"][bad].get("panic"))
+    if c.get("wd2") is not None and not c.get("wd2_err") and c["wd2"] != c.get("wd1"):
+        # re-serialising the unmodified Directory must reproduce the bytes (lib/signappx digests the first output, writes the second)
+        F.add("C17:WriteDirectory:second-call-differs", "%s [%s]: a second WriteDirectory on the same Directory emits %d bytes, the first %d" % (
+            flow, c.get("sub", "")[:90], len(c["wd2"]) // 2, len(c["wd1"]) // 2), c)
+    if not verdict:
+        return True
+    c["_verdict"] = verdict
+    # which field of which member is wrong, by the readers that do list the members
+    wrong = set()
+    for got in ([(m["name"], (m["dataoff"] - e["lfhlen"]) if m["dataoff"] >= 0 else None, m["csize"], m["usize"], m["crc"]) for m, e in zip(g["members"], exp)] if not g["err"] else [],
+                [(m["name"], m["off"], m["csize"], m["usize"], m["crc"]) for m in py["members"]],
+                [(m["name"], m["off"], m["csize"], m["usize"], m["crc0"]) for m in (r["members"] or [])]):
+        for a, b in zip(got, want):
+            if a[0] != b[0]:
+                wrong.add("names")
+            elif a[1] != b[1]:
+                wrong.add("offset")
+            elif a[2:4] != b[2:4]:
+                wrong.add("sizes")
+            elif a[4] != b[4]:
+                wrong.add("crc")
+        if got and len(got) != len(want):
+            wrong.add("names")
+    if set(verdict) == {"zipfile"} and max(zip64_records(c.get("wd1", "")) or [0]) > 1:
+        # the entry relic rebuilt keeps the ZIP64 record of the cached original behind the new one; zipfile consults every
+        # record when a value equals 0xffffffff exactly
+        key = "C17:GetDirectoryHeader:stale-zip64-record-kept"
+    elif "offset" in wrong or any("local" in v for v in verdict.values()):
+        key = "C17:rewrite:%s:member-offset" % flow
+    elif "sizes" in wrong:
+        key = "C17:rewrite:%s:member-sizes" % flow
+    elif wrong:
+        key = "C17:rewrite:%s:member-%s" % (flow, sorted(wrong)[0])
+    else:
+        key = "C17:rewrite:%s:directory-unreadable" % flow
+    F.add(key, "%s [%s]: %s" % (flow, c.get("sub", "")[:90], "; ".join("%s %s" % kv for kv in sorted(verdict.items()))), c)
+    return False
+
+
+def layout_model_vals(c):
+    srcs = [[s["size"], [[o, Hex(h)] for o, h in s["segs"]]] for s in c["sources"]]
+    def nf(o):
+        return [0, Hex(o[1]), Hex(o[2])] + list(o[3:9]) + [bool(o[9])]
+    if c.get("flow") == "mangle":
+        return [6, srcs[0], [bool(x) for x in c["delete_flags"]], [nf(o) for o in c.get("model_news") or []], bool(c["force64"])]
+    return [5, srcs, [nf(o) if o[0] == 0 else list(o) for o in c.get("model_ops") or []], bool(c["force64"])]
+
+
+def compare_layout(c, o):
+    """model (generated AddFile / GetDirectoryHeader / WriteDirectory bodies) vs the real code on one layout case"""
+    diffs = []
+    if tuple(o[0]) != (0, 0):
+        return ["model status %s, relic wrote a directory" % (o[0],)]
+    if o[1] != c["dirloc"]:
+        diffs.append("DirLoc model %d relic %d" % (o[1], c["dirloc"]))
+    if str(o[2]) + str(o[3]) != c["wd1"]:
+        diffs.append("WriteDirectory bytes differ (model %d bytes, relic %d)" % ((len(str(o[2])) + len(str(o[3]))) // 2, len(c["wd1"]) // 2))
+    if c.get("wd2") is not None and not c.get("wd2_err") and str(o[4]) + str(o[5]) != c["wd2"]:
+        diffs.append("second WriteDirectory bytes differ")
+    want = [[e["name"], e["off"], e["csize"], e["usize"], e["crc"]] for e in c["expect"]]
+    for idx, what in ((6, "APPNOTE reader (Coq) on the model's directory"), (7, "APPNOTE reader (Coq) on the second directory"),
+                      (8, "zipfile-style reader (Coq) on the model's directory")):
+        v = o[idx]
+        got = [[str(x) if isinstance(x, Hex) else x for x in e] for e in v[1]] if v[0] == 1 else None
+        if got != want and not (idx == 7 and c.get("wd2") is None):
+            diffs.append("%s does not yield the intended members" % what)
+    got = [[str(x) if isinstance(x, Hex) else x for x in e] for e in o[9]]
+    if got != want:
+        diffs.append("model's intended list differs from the harness ground truth")
+    if c.get("flow") == "mangle" and c.get("patches") is not None:
+        # binpatch coalesces adjacent patches and splits those above 4 GiB: compare the replaced byte ranges as merged intervals
+        def merged(rs):
+            out = []
+            for a, n in sorted(rs):
+                if n <= 0:
+                    continue
+                if out and a <= out[-1][1]:
+                    out[-1][1] = max(out[-1][1], a + n)
+                else:
+                    out.append([a, a + n])
+            return out
+        cuts = merged([[a, b] for a, b in o[10]] + [[o[11], c["sources"][0]["size"] - o[11]]])
+        rel = merged([[p[0], p[1]] for p in c["patches"]])
+        if cuts != rel:
+            diffs.append("replaced ranges of the source differ: model %s relic %s" % (cuts[:4], rel[:4]))
+    return diffs
+
+
 # ------------------------------------------------------------------ correspondence with the Coq model
 def rd_val(c):
     if c.get("segs") is not None:
@@ -352,6 +566,7 @@ def run(ctx, replay=None):
     fp = ["lib/zipslicer"]
     trusted = ["srcgen translator (constants, wire-struct layouts, branch conditions, serialised struct literals of lib/zipslicer)",
                "correspondence harness cmd/drv-c17 (real zipslicer Read/ReadZipTar/GetTotalSize/WriteDirectory/GetOriginalDirectory/Mangle/NewFile/AddFile/Truncate)",
+               "whole-body translations of AddFile / GetDirectoryHeader / WriteDirectory loop by srcgen (state passing; any statement outside the translated forms is a broken tie)",
                "Go archive/zip and Python zipfile as the standard readers; compress/flate, hash/crc32 (library functions, not modelled)",
                "harness-owned zip writer (validated on every archive by archive/zip and zipfile and against the Coq APPNOTE builder)"]
     if not st["harness_ok"]:
@@ -360,18 +575,23 @@ def run(ctx, replay=None):
     # ---------------------------------------------------------------- run the implementation
     if replay:
         rc, out, err = ctx.drv(["c17replay", replay])
-        big_out = ""
+        big_out, lay_out = "", ""
     else:
         rc, out, err = ctx.drv(["c17"], timeout=900)
         rcb, big_out, errb = ctx.drv(["c17big"], timeout=600)
         if rcb != 0:
             ctx.violation("C17:driver-crash", "driver c17big failed: " + errb[-300:], {"stderr": errb[-2000:]}, False)
+        rcl, lay_out, errl = ctx.drv(["c17layout"], timeout=600)
+        if rcl != 0:
+            ctx.violation("C17:driver-crash", "driver c17layout failed: " + errl[-300:], {"stderr": errl[-2000:]}, False)
     if rc != 0:
         ctx.violation("C17:driver-crash", "driver failed: " + err[-400:], {"stderr": err[-2000:]}, False)
     if "WRITER SELFCHECK FAILED" in err:
         ctx.violation("C17:harness-writer", "harness zip writer disagrees with archive/zip: " + err[:300], {"stderr": err[-2000:]}, False)
     cases = [json.loads(l) for l in out.splitlines() if l.strip()]
     big = [json.loads(l) for l in big_out.splitlines() if l.strip()]
+    layout = [c for c in cases if c["kind"] == "layout"] + [json.loads(l) for l in lay_out.splitlines() if l.strip()]
+    cases = [c for c in cases if c["kind"] != "layout"]
     byid = {c["id"]: c for c in cases}
     F = Findings()
     pyv = {}
@@ -380,6 +600,17 @@ def run(ctx, replay=None):
     kinds = {}
     featc = {}
     # ---------------------------------------------------------------- model-free oracle
+    stats["layout"] = len(layout)
+    stats["layout_ok"] = 0
+    stats["layout_second_write_differs"] = 0
+    for c in layout:
+        kinds["layout:" + c.get("flow", "")] = kinds.get("layout:" + c.get("flow", ""), 0) + 1
+        py = py_layout_view(c["out"]) if c.get("out") else {"err": "no output", "members": []}
+        c["py"] = py
+        if oracle_layout(c, py, F):
+            stats["layout_ok"] += 1
+        if c.get("wd2") is not None and c.get("wd1") != c.get("wd2"):
+            stats["layout_second_write_differs"] += 1
     for c in cases:
         kinds[c["kind"]] = kinds.get(c["kind"], 0) + 1
         for f in c.get("features") or []:
@@ -488,12 +719,24 @@ def run(ctx, replay=None):
             for c, o in zip(mcases, outs):
                 if tuple(o[0]) != (0, 0) or str(o[1]) != c["zip"]:
                     mism.append(("mangle", c, ["model Mangle/NewFile/MakePatch result differs from relic's (model status %s)" % (o[0],)]))
+            # (d) layout-level writer: generated bodies of AddFile / GetDirectoryHeader / WriteDirectory loop, Mangle, and the Coq APPNOTE reader
+            # (directories of more than 3000 entries are judged by the three readers only: the extracted list model is quadratic there)
+            lcases = [c for c in layout if c.get("wd1") is not None and not c.get("err") and not c.get("panic") and len(c.get("expect") or []) <= 3000]
+            outs = ctx.run_model([layout_model_vals(c) for c in lcases])
+            evaluated += len(outs)
+            for c, o in zip(lcases, outs):
+                d = compare_layout(c, o)
+                if d:
+                    mism.append(("layout", c, d))
         except RuntimeError as e:
             ctx.violation("C17:model-eval", str(e)[-300:], {"output": str(e)}, False)
 
     # ---------------------------------------------------------------- verdicts
     def slim(c):
         d = {k: v for k, v in c.items() if k not in ("py", "_refs_disagree", "_ok")}
+        if c["kind"] == "layout":
+            d = {k: v for k, v in c.items() if k not in ("py", "out", "go", "relic")}
+            d["zipfile"] = c.get("py")
         if c.get("src") is not None and c["src"] in byid and c["kind"] in ("mangle", "mangle2"):
             s = byid[c["src"]]
             d["src_zip"] = s.get("zip", "")
@@ -508,18 +751,31 @@ def run(ctx, replay=None):
                       {"cases": [slim(c)], "differences": d[:10], "broken": "correspondence C17.Run." + what}, False)
     elif mism:
         ctx.notes.append("model/implementation differences on %d cases (first: %s %s)" % (len(mism), mism[0][0], mism[0][2][0][:120]))
+    if not st["proofs_ok"] and any(v[2] for v in ctx.violations):
+        # concrete failing inputs exist, but they need not be caused by what broke the proofs: name the broken obligations too
+        what = st["broken"] or st["hygiene"] or [t for t, v in st["built"].items() if not v] or ["no theorems found"]
+        ctx.violation("C17:proof", "proof obligations no longer check: %s (failing inputs found by the oracle are reported under their own keys)" % (what,),
+                      {"broken": what, "coq_log_tail": (ctx.coq or {}).get("log_tail", "")[-2500:]}, False)
     ctx.proof_verdict()
     cov = ctx.proof_coverage(trusted, fp)
     nontrivial = len({hashlib.sha256(c["zip"].encode()).hexdigest() for c in cases if c.get("zip") and c["kind"] != "malformed" and (c["go"]["members"] or [])})
     samples = [{"kind": c["kind"], "sub": c.get("sub", "")[:80], "size": c.get("size"), "features": c.get("features"),
                 "relic_err": (c.get("relic") or {}).get("err"), "members": len((c.get("go") or {}).get("members") or [])} for c in cases[40:43] + cases[-400:-398]]
+    nontrivial += len({hashlib.sha256((c.get("wd1") or "").encode() + json.dumps(c.get("expect")).encode()).hexdigest() for c in layout if c.get("wd1")})
+    samples += [{"kind": "layout", "flow": c.get("flow"), "sub": c.get("sub", "")[:100], "size": c.get("size"), "members": len(c.get("expect") or [])}
+                for c in layout[3:5] + layout[-2:]]
     cov.update({"evaluations": evaluated, "distinct_nontrivial": nontrivial,
                 "rule": "harness-owned APPNOTE writer: exhaustive descriptor-variant x size x method cross product, all 8 ZIP64 saturation masks, "
                         "name/extra/comment length boundaries, archive comment/prefix/gaps/reordered directory, forced ZIP64 end records + seeded random archives (0-40 members); "
                         "every archive read by archive/zip, zipfile, relic random-access, relic streaming; relic writer: Mangle/NewFile/MakePatch twice, JAR-style AddFile rewrite, "
-                        "fresh NewFile archives; sparse >=4GiB layouts; malformed stream for model correspondence only. non-trivial = distinct valid archives with >=1 member",
+                        "fresh NewFile archives; sparse >=4GiB layouts; malformed stream for model correspondence only; rewrites on sparse sources (driver c17layout): "
+                        "members just below / at / above offset 0xffffffff before and after re-indexing, upwards (new members of every size class or a 4 GiB donor in front) and "
+                        "downwards (small or 4 GiB members dropped), cached raw entries with / without ZIP64 record (APPNOTE, Go-writer and forced styles), sizes at 2^32-1, "
+                        "DirLoc at the threshold, Directory API and Mangle/MakePatch, random sequences; judged by archive/zip, zipfile and relic on the physically assembled "
+                        "archive. non-trivial = distinct valid archives with >=1 member + distinct rewritten directories",
                 "samples": samples, "exhaustive": False, "input_distribution": kinds, "feature_counts": featc, "oracle_stats": stats,
                 "model_mismatches": len(mism), "findings_by_key": {k: v[0] for k, v in F.by_key.items()}})
     return ctx.finish("proof", cov, ["deflate/inflate and CRC-32 are library functions (contents compared by sha256 against archive/zip and zipfile)",
                                      "bytes.Reader / os.File ReadAt semantics as modelled by rd_bytes (short read = error)",
-                                     "theorems cover the explicit class K stated in C17/Properties.v; outside it the check relies on the differential oracle"])
+                                     "theorems cover the explicit class K stated in C17/Properties.v; outside it the check relies on the differential oracle",
+                                     "rewrite theorem (rewrite_directory_spec_read): cached raw entries are assumed to be read by the APPNOTE reader as the File's fields (raw_ok; proved for entries relic wrote itself, checked on every harness case by running the Coq reader on the emitted directory)"])
